@@ -1,6 +1,7 @@
 """C11 check configuration."""
 
 PROP = {
+    "level_text_more": "The part 'shutdown' ends with a configuration save after the production cleanup() has closed the authentication module (what a state-changing call still running at shutdown does): the administrator must still be in the file the next start reads.",
     "thorough_scale": 4,
     "parts": [
         {"name": "mux", "pkg": "internal/home",
